@@ -370,6 +370,12 @@ func (n *Node[T]) Accept(ctx context.Context, block Block) (ExecutedBlock[T], er
 						return
 					}
 
+					// the peer must serve the chunk the certificate references, not just any valid chunk
+					if response.id != chunkCert.ChunkID {
+						result <- fmt.Errorf("peer served chunk %s instead of the requested chunk %s", response.id, chunkCert.ChunkID)
+						return
+					}
+
 					if _, err := n.storage.VerifyRemoteChunk(response); err != nil {
 						result <- err
 						return
@@ -400,6 +406,8 @@ func (n *Node[T]) Accept(ctx context.Context, block Block) (ExecutedBlock[T], er
 					break
 				}
 			}
+			// the fetched chunk has been appended by onResponse, there are no local bytes to parse
+			continue
 		}
 
 		chunk, err := ParseChunk[T](chunkBytes)
